@@ -15,12 +15,14 @@ abbrev TCache (D : Type) := Str → Option (D × Nat)
 
 def upd {β : Type} (m : Str → Option β) (k : Str) (v : Option β) : Str → Option β := fun x => if x = k then v else m x
 
-/-- `loadCachedWithFrontMatter`: (result, cache afterwards). `statFailureIsMiss` is read from the source. -/
-def loadCached {C D : Type} (parse : C → Option D) (statFailureIsMiss : Bool) (fs : FS C) (cache : TCache D) (name : Str) : Option D × TCache D :=
+/-- `loadCachedWithFrontMatter`: (result, cache afterwards). The two rule flags are read from the source: `statFailureIsMiss` (a failed Stat
+    never answers from the cache) and `zeroMtimeIsHit` (a current modification time of zero answers from ANY entry — the pinned rule, "cannot
+    check" — rather than only from an entry recorded at the zero time). -/
+def loadCached {C D : Type} (parse : C → Option D) (statFailureIsMiss zeroMtimeIsHit : Bool) (fs : FS C) (cache : TCache D) (name : Str) : Option D × TCache D :=
   let cur : Nat := match fs name with | some f => f.mtime | none => 0
   let statFailed := (fs name).isNone
   let hit : Option D := match cache name with
-    | some (d, cmt) => if (!(statFailed && statFailureIsMiss)) && (cur == 0 || cmt == cur) then some d else none
+    | some (d, cmt) => if (!(statFailed && statFailureIsMiss)) && ((zeroMtimeIsHit && cur == 0) || cmt == cur) then some d else none
     | none => none
   match hit with
   | some d => (some d, cache)
@@ -45,9 +47,9 @@ structure State (C D : Type) where
   fs : FS C
   cache : TCache D
 
-def step {C D : Type} (parse : C → Option D) (miss : Bool) (s : State C D) : Op C → State C D × Option (Option D)
+def step {C D : Type} (parse : C → Option D) (miss zeroHit : Bool) (s : State C D) : Op C → State C D × Option (Option D)
   | .write n c mt => ({ s with fs := upd s.fs n (some { content := c, mtime := mt }) }, none)
   | .delete n => ({ s with fs := upd s.fs n none }, none)
-  | .render n => let (r, cache') := loadCached parse miss s.fs s.cache n; ({ s with cache := cache' }, some r)
+  | .render n => let (r, cache') := loadCached parse miss zeroHit s.fs s.cache n; ({ s with cache := cache' }, some r)
 
 end Vuego.Cache
